@@ -446,6 +446,22 @@ def run_for_property(prop: str, root: Optional[str] = None, max_mutants: int = 1
                 jobs.append((prop, root, {path: ast.unparse(t2)}, f"twin:{tname}:{q}"))
             for desc, t2 in gen_mutants(tree, q):
                 mutants.append((path, desc, t2))
+    # a private anchored method renamed across the package: read back under the rules' name (pamsa.renames)
+    from .renames import _Renamer
+
+    for q in quals:
+        cls_, _, meth = q.partition(".")
+        if ":" in q or "." in meth or not meth.startswith("_") or meth.startswith("__"):
+            continue
+        ov: Dict[str, str] = {}
+        for path, src in sources.items():
+            if meth not in src:
+                continue
+            t = ast.parse(src)
+            _Renamer({meth: meth + "_renamed"}).visit(t)
+            ov[path] = ast.unparse(t)
+        ntw += 1
+        jobs.append((prop, root, ov, f"twin:rename-private:{q}"))
     rnd = random.Random(seed)
     if len(mutants) > max_mutants:
         mutants = rnd.sample(mutants, max_mutants)
